@@ -87,6 +87,31 @@ Ltac split_ifs H :=
   | context [match ?x with _ => _ end] => let E := fresh "E" in destruct x eqn:E
   end.
 
+Ltac arith_goal := match goal with
+  | |- (_ <= _)%Z => idtac | |- (_ < _)%Z => idtac | |- @eq Z _ _ => idtac
+  | |- (_ <= _)%nat => idtac | |- (_ < _)%nat => idtac | |- @eq nat _ _ => idtac
+  | |- False => idtac | |- _ <> _ => idtac end.
+Ltac keep_arith := repeat match goal with H : ?T |- _ => lazymatch T with
+  | (_ <= _)%Z => fail | (_ < _)%Z => fail | @eq Z _ _ => fail | (_ <> _) => fail
+  | (_ <= _)%nat => fail | (_ < _)%nat => fail | @eq nat _ _ => fail | _ => clear H end end.
+(* lia on arithmetic goals only, after dropping every non-arithmetic hypothesis (zify is slow on large contexts) *)
+Ltac zl := arith_goal; keep_arith; lia.
+
+Ltac b2p := repeat match goal with
+  | H : (_ <? _) = true |- _ => apply Z.ltb_lt in H
+  | H : (_ <? _) = false |- _ => apply Z.ltb_ge in H
+  | H : (_ <=? _) = true |- _ => apply Z.leb_le in H
+  | H : (_ <=? _) = false |- _ => apply Z.leb_gt in H
+  | H : (_ =? _) = true |- _ => apply Z.eqb_eq in H
+  | H : (_ =? _) = false |- _ => apply Z.eqb_neq in H
+  | H : (_ <? _)%nat = true |- _ => apply Nat.ltb_lt in H
+  | H : (_ <? _)%nat = false |- _ => apply Nat.ltb_ge in H
+  | H : (_ =? _)%nat = true |- _ => apply Nat.eqb_eq in H
+  | H : (_ =? _)%nat = false |- _ => apply Nat.eqb_neq in H
+  | H : _ && _ = true |- _ => apply andb_true_iff in H; destruct H
+  | H : negb _ = true |- _ => apply negb_true_iff in H
+  end.
+
 Ltac ds s := destruct s as [total0 pending0 connected0 will_close0 cwf0 nreq0 olock0 ocount0 rlock0 pulled0 in_map0 sock_closed0 closed_bufs0 reading0 gone0 pending_in0 io0 wk0 wq0 wclose0 cur0 queued0 tailsA0 tailsB0 appended0 wire0 last_write0].
 
 Ltac unf := unfold enter_flush, w_flush_done, fb_loop, fb_exit, goto_append, next_write, end_service, enter_io_flush, io_flush_done, enter_hc, to_top, wake_w, acq, rel, send_ok, rdy_r, rdy_w in *.
